@@ -654,7 +654,7 @@ def gen_case(r, tag):
     for key, ts, kind in known_keys[:8]:
         if r.random() < 0.5:
             ops.append(["ntr", key])
-    return {"classes": classes, "split": split, "insts": insts, "ops": ops}
+    return {"tag": tag, "classes": classes, "split": split, "insts": insts, "ops": ops}
 
 
 def exec_case(mt, case):
@@ -766,3 +766,651 @@ def cases_file(pairs):
         _STRTAB = None
     return (CASES_HEADER + defs + "Definition cases : list (list op * list obs) :=\n [%s].\n"
             "Eval vm_compute in (bad_from hist_ok 0 cases).\n" % body)
+
+
+# ---------------------------------------------------------------------------
+# the property, stated over implementation observations (oracle for the search;
+# NOT the deciding method)
+# ---------------------------------------------------------------------------
+def oracle_case(case, obs):
+    """first clause of C09 that the observations of this history violate, or None."""
+    topics = {}                                     # documented key -> [type string, pv]
+    bind = {}                                       # instance -> {attr: (key, ts)}
+    for n, (op, o) in enumerate(zip(case["ops"], obs)):
+        def fail(fp, what):
+            return {"kind": "input", "fingerprint": fp, "op_index": n, "op": op, "observed": o,
+                    "what": "op %d %s: %s" % (n, json.dumps(op), what)}
+        if o[0] in ("bad", "classraise"):
+            return fail("c09-unusable", "implementation produced %r" % (o,))
+        if op[0] == "setup":
+            if o != ["setup", True]:
+                return fail("c09-setup-raises", "setup_tunables raised %s for a class of supported tunables" % o[2:])
+            b = {}
+            for d in case["classes"][case["insts"][op[1]]]:
+                if d["attr"].startswith("_"):
+                    continue
+                key = doc_key(op[2], op[3], d["subtable"], d["attr"])
+                ts = doc_topic(d["default"], d["hint"])
+                if d["wd"] is not False or key not in topics:
+                    topics[key] = [ts, canon(d["default"])]
+                b[d["attr"]] = (key, ts)
+            bind[op[1]] = b
+        elif op[0] == "pyw":
+            e = bind.get(op[1], {}).get(op[2])
+            if e is None:
+                if o[0] != "err":
+                    return fail("c09-unbound-write", "write to an unbound tunable did not raise")
+            else:
+                if o[0] != "wrote":
+                    return fail("c09-write-raises", "attribute assignment raised %r" % (o,))
+                topics[e[0]] = [e[1], canon(op[3])]
+        elif op[0] == "pyr":
+            e = bind.get(op[1], {}).get(op[2])
+            if e is None:
+                if o[0] != "err":
+                    return fail("c09-unbound-read", "read of an unbound tunable returned %r" % (o,))
+            else:
+                want = topics[e[0]][1]
+                if o != ["val", want]:
+                    return fail("c09-read-not-latest",
+                                "attribute read gives %s, the latest value written to its topic %s (from either side, "
+                                "or the default at setup) is %s" % (json.dumps(o), e[0], json.dumps(want)))
+        elif op[0] == "ntw":
+            topics[op[1]] = [op[2], canon(op[3])]
+        elif op[0] == "ntr":
+            want = topics.get(op[1])
+            if o != ["nt", want]:
+                return fail("c09-topic-at-documented-key",
+                            "an independent subscriber at %s sees %s, the property (documented key, topic type, "
+                            "writeDefault, latest write) requires %s" % (op[1], json.dumps(o[1]), json.dumps(want)))
+    return None
+
+
+def strip_case(case):
+    """drop generator-only fields (keeps the JSON replay small and stable)."""
+    return json.loads(json.dumps(case))
+
+
+def shrink_case(mt, case, fresh_tag, budget=150):
+    """greedy: drop ops, then declarations, while the oracle still reports the same fingerprint."""
+    def retag(c, tag):
+        return json.loads(json.dumps(c).replace(c.get("tag", "\0"), tag)) if c.get("tag") else c
+
+    def failing(c):
+        c2 = retag(c, fresh_tag())
+        v = oracle_case(c2, exec_case(mt, c2))
+        return v
+
+    v0 = failing(case)
+    if v0 is None:
+        return case, None
+    fp = v0["fingerprint"]
+    best = case
+    changed = True
+    while changed and budget > 0:
+        changed = False
+        for k in range(len(best["ops"]) - 1, -1, -1):
+            if budget <= 0:
+                break
+            cand = dict(best)
+            cand["ops"] = best["ops"][:k] + best["ops"][k + 1:]
+            budget -= 1
+            v = failing(cand)
+            if v is not None and v["fingerprint"] == fp:
+                best, changed = cand, True
+        for ci, ds in enumerate(best["classes"]):
+            for k in range(len(ds) - 1, -1, -1):
+                if len(ds) <= 1 or budget <= 0:
+                    break
+                attr = ds[k]["attr"]
+                if any(op[0] in ("pyw", "pyr") and op[2] == attr and best["insts"][op[1]] == ci for op in best["ops"]):
+                    continue
+                cand = dict(best)
+                cand["classes"] = [list(x) for x in best["classes"]]
+                del cand["classes"][ci][k]
+                cand["split"] = [0] * len(cand["classes"])
+                budget -= 1
+                v = failing(cand)
+                if v is not None and v["fingerprint"] == fp:
+                    best, changed = cand, True
+                    ds = best["classes"][ci]
+    c2 = retag(best, fresh_tag())
+    return c2, oracle_case(c2, exec_case(mt, c2))
+
+
+def oracle_grid(d, h, g):
+    want = doc_topic(d, h)
+    if g[0] == "raise":
+        if want is not None:
+            return ("c09-supported-type-rejected",
+                    "tunable(%s) with hint %s raises %s; the documented topic type is %s" % (json.dumps(d), json.dumps(h), g[1], want))
+    elif want is None:
+        return ("c09-unsupported-accepted",
+                "tunable(%s) with hint %s is accepted; the documented table has no topic type for it" % (json.dumps(d), json.dumps(h)))
+    elif g[0] == "setupraise":
+        return ("c09-setup-raises", "tunable(%s) with hint %s cannot be bound: %s" % (json.dumps(d), json.dumps(h), g[1]))
+    elif g[0] == "bound" and g[1] != want:
+        return ("c09-topic-type", "tunable(%s) with hint %s is published as %r; the documented topic type is %r"
+                % (json.dumps(d), json.dumps(h), g[1], want))
+    return None
+
+
+# ---------------------------------------------------------------------------
+# @feedback: key and topic type derivation of collect_feedbacks (also used by C11)
+#   fcase = {"name","explicit","ann","prefix","cname","value"}
+# ---------------------------------------------------------------------------
+FB_NAMES = ["get_x", "getx", "x", "get_", "_private", "get_get_y", "_get_z", "Get_q", "get_a_b",
+            "target_get_x", "get", "get_get_"]
+FB_EXPLICIT = [None, "k", "", "get_k", "sub/k"]
+
+
+def fb_value_for(r, ann):
+    """a value the getter returns: fits the annotation when there is a documented topic for it."""
+    ts = doc_hint(ann) if ann is not None else None
+    if ts is not None and ts in TS_KIND:
+        return gen_value(r, TS_KIND[ts])
+    return gen_value(r, r.choice([("bool", False), ("int", False), ("float", False), ("str", False), ("bytes", False),
+                                  ("bool", True), ("int", True), ("float", True), ("str", True)]), allow_empty=False)
+
+
+def exec_fcase(mt, fc, flavor=0):
+    inst = nt_inst()
+    val = to_py(fc["value"])
+
+    def getter(self):
+        return val
+    getter.__name__ = fc["name"]
+    getter.__qualname__ = "FbComp." + fc["name"]
+    if fc["ann"] is not None:
+        getter.__annotations__ = {"return": hint_to_py(fc["ann"], flavor)}
+    try:
+        m = mt.feedback(getter) if fc["explicit"] is None else mt.feedback(key=fc["explicit"])(getter)
+        cls = type("FbComp", (object,), {fc["name"]: m})
+    except Exception as e:
+        return ["bad", "decorator: %s" % type(e).__name__]
+    pfx = "/%s/" % fc["cname"] if fc["prefix"] is None else "/%s/%s/" % (fc["prefix"], fc["cname"])
+    if inst.getTopics(pfx):
+        return ["bad", "prefix %s not clean" % pfx]
+    obj = cls()
+    try:
+        fbs = mt.collect_feedbacks(obj, fc["cname"], fc["prefix"])
+    except Exception as e:
+        return ["raise", type(e).__name__]
+    if len(fbs) != 1:
+        return ["bad", "%d feedbacks collected" % len(fbs)]
+    before = {t.getName(): t.getTypeString() for t in inst.getTopics(pfx)}
+    method, setter = fbs[0]
+    try:
+        setter(method())
+    except Exception as e:
+        after = dict(before)
+        if not after:
+            return ["bad", "setter raised %s and nothing is published" % type(e).__name__]
+    after = {t.getName(): t.getTypeString() for t in inst.getTopics(pfx)}
+    if len(after) != 1 or not set(before) <= set(after):
+        return ["bad", "topics under %s: %r -> %r" % (pfx, before, after)]
+    key = list(after)[0]
+    return ["topic", key, before.get(key), after[key]]
+
+
+def fobs_to_coq(o):
+    if o[0] == "raise":
+        return "FRaise"
+    if o[0] == "topic" and all(32 <= ord(c) < 127 for c in o[1]):
+        return "(FTopic %s %s %s)" % (cs(o[1]), coq_opt(o[2], cs), coq_opt(o[3], cs))
+    return "FBad"
+
+
+def oracle_fcase(fc, o):
+    """C11's key / topic type clause on one getter."""
+    if fc["explicit"] is not None:
+        key = fc["explicit"]
+    elif fc["name"].startswith("get_"):
+        key = fc["name"][len("get_"):]
+    else:
+        key = fc["name"]
+    want_key = ("/%s/%s" % (fc["cname"], key)) if fc["prefix"] is None else "/%s/%s/%s" % (fc["prefix"], fc["cname"], key)
+    want_ts = doc_hint(fc["ann"]) if fc["ann"] is not None else None
+    def v(fp, what):
+        return {"kind": "feedback", "fingerprint": fp, "fcase": fc, "observed": o,
+                "what": "@feedback %s(key=%r) -> %s on %s: %s" % (fc["name"], fc["explicit"], json.dumps(fc["ann"]), fc["cname"], what)}
+    if o[0] == "raise":
+        if want_ts == "raw":
+            return None       # `-> bytes` is not among the hints C11 lists; collect_feedbacks raises (reported, see notes)
+        return v("c11-collect-raises", "collect_feedbacks raised %s" % o[1])
+    if o[0] != "topic":
+        return v("c11-unusable", "observation %r" % (o,))
+    if o[1] != want_key:
+        return v("c11-key", "published at %r, the documented key is %r" % (o[1], want_key))
+    if want_ts is not None and want_ts != "raw" and (o[2] != want_ts or o[3] != want_ts):
+        return v("c11-topic-type", "topic type %r/%r, the return type hint requires %r" % (o[2], o[3], want_ts))
+    return None
+
+
+def gen_fcases(ctx, tag0="f"):
+    r = ctx.rng
+    hints = [None] + grid_hints()
+    out = []
+    n = 0
+    # every name shape x explicit key, annotation rotating through the whole grid
+    reps = 1 if ctx.tier == "quick" else 4
+    for _ in range(reps):
+        for name in FB_NAMES:
+            for ex in FB_EXPLICIT:
+                ann = hints[n % len(hints)] if n % 3 else r.choice([None, ["base", "int"], ["gen", "seq", ["float"]]])
+                out.append({"name": name, "explicit": ex, "ann": ann})
+                n += 1
+    # every annotation of the grid once (thorough: with every explicit-key choice)
+    for ann in hints:
+        for ex in (FB_EXPLICIT if ctx.tier == "thorough" else [r.choice(FB_EXPLICIT)]):
+            out.append({"name": r.choice(FB_NAMES), "explicit": ex, "ann": ann})
+    for k, fc in enumerate(out):
+        if k % 7 == 3:
+            # the robot itself: collect_feedbacks(self, "robot", None).  Generic NetworkTableEntry
+            # handles are never released, so "/robot/" is only clean once per process: later cases
+            # use the same prefix=None path with a unique name
+            fc["prefix"], fc["cname"] = None, ("robot" if k == 3 else "robot%s%d" % (tag0, k))
+        elif k % 7 == 5:
+            fc["prefix"], fc["cname"] = "autonomous", "%s%d" % (tag0, k)
+        else:
+            fc["prefix"], fc["cname"] = "components", "%s%d" % (tag0, k)
+        fc["value"] = fb_value_for(r, fc["ann"])
+    return out
+
+
+def fcases_file(pairs):
+    global _STRTAB
+    _STRTAB = StrTab()
+    try:
+        rows = []
+        for fc, o in pairs:
+            rows.append("(fb_match %s %s %s %s %s %s %s)" % (
+                coq_opt(fc["prefix"], cs), cs(fc["cname"]), coq_opt(fc["explicit"], cs), cs(fc["name"]),
+                coq_opt(fc["ann"], hint_to_coq), to_coq(fc["value"]), fobs_to_coq(o)))
+        defs = _STRTAB.defs()
+    finally:
+        _STRTAB = None
+    return (CASES_HEADER + defs + "Definition rows : list bool :=\n [%s].\n"
+            "Eval vm_compute in (bad_from (fun b : bool => b) 0 rows).\n" % ";\n ".join(rows))
+
+
+def feedback_key_cases(ctx, prefix="fb"):
+    """Correspondence of the feedback key / topic type derivation (Model.fb_key, fb_topic_key,
+    fb_publisher) with collect_feedbacks of $VERIF_REPO.  Records obligations `corr:<prefix>_*` on
+    ctx; returns (fcases, observations, bad indices) so a caller can run its own oracle."""
+    mt = impl()
+    fcs = gen_fcases(ctx, tag0=prefix)
+    obs = []
+    for k, fc in enumerate(fcs):
+        o = exec_fcase(mt, fc, flavor=k % 2)
+        obs.append(o)
+        ctx.count("fb:name=%s" % fc["name"])
+        ctx.count("fb:explicit=%s" % ("none" if fc["explicit"] is None else repr(fc["explicit"])))
+        ctx.count("fb:obs=%s" % o[0])
+    pairs = list(zip(fcs, obs))
+    items = [("%s_%d" % (prefix, k), fcases_file(sh)) for k, sh in enumerate(shards(pairs, 400))]
+    res = ctx.coq_files_parallel(items)
+    bad = []
+    for k, (name, _) in enumerate(items):
+        rc, out = res[name]
+        lists = parse_eval_lists(out) if rc == 0 else []
+        ok = rc == 0 and len(lists) == 1 and lists[0] == []
+        ctx.obligation("corr:%s (fb_key / fb_topic_key / fb_publisher == collect_feedbacks)" % name, ok, out[-1500:])
+        if rc == 0 and lists and lists[0]:
+            bad += [k * 400 + i for i in lists[0]]
+    return fcs, obs, bad
+
+
+# ---------------------------------------------------------------------------
+# MagicRobot binds components, autonomous modes and itself (one real robot, own process)
+# ---------------------------------------------------------------------------
+ROBOT_SRC = '''
+import json, sys
+import magicbot, ntcore
+from magicbot import tunable
+class Comp:
+    gainC09 = tunable(3)
+    flagC09 = tunable(True, subtable="cfg")
+    def execute(self): pass
+class R(magicbot.MagicRobot):
+    left: Comp
+    right: Comp
+    topC09 = tunable("x")
+    limC09 = tunable[tuple[float, ...]]((), subtable="s/t")
+    def createObjects(self): pass
+r = R(); r.robotInit()
+inst = ntcore.NetworkTableInstance.getDefault()
+r.left.gainC09 = 9
+out = {"topics": sorted([t.getName(), t.getTypeString()] for t in inst.getTopics() if "C09" in t.getName()),
+       "left": r.left.gainC09, "right": r.right.gainC09}
+print("C09JSON" + json.dumps(out))
+'''
+MODE_SRC = '''
+from magicbot import AutonomousStateMachine, state, tunable
+class ModeA(AutonomousStateMachine):
+    MODE_NAME = "Mode A"
+    speedC09 = tunable(0.5)
+    burstC09 = tunable([1, 2], subtable="cfg")
+    @state(first=True)
+    def go(self): pass
+'''
+ROBOT_EXPECT = [  # (owner, subtable, attr, ntype)
+    ('(OComponent "left")', "None", "gainC09", "NInteger"), ('(OComponent "right")', "None", "gainC09", "NInteger"),
+    ('(OComponent "left")', '(Some "cfg")', "flagC09", "NBoolean"), ('(OComponent "right")', '(Some "cfg")', "flagC09", "NBoolean"),
+    ("ORobot", "None", "topC09", "NString"), ("ORobot", '(Some "s/t")', "limC09", "NDoubleArr"),
+    ('(OAutonomous "Mode A")', "None", "speedC09", "NDouble"), ('(OAutonomous "Mode A")', '(Some "cfg")', "burstC09", "NIntegerArr"),
+]
+ROBOT_DOC = {"/components/left/gainC09": "int", "/components/right/gainC09": "int",
+             "/components/left/cfg/flagC09": "boolean", "/components/right/cfg/flagC09": "boolean",
+             "/robot/topC09": "string", "/robot/s/t/limC09": "double[]",
+             "/autonomous/Mode A/speedC09": "double", "/autonomous/Mode A/cfg/burstC09": "int[]"}
+
+
+def run_robot(work):
+    d = os.path.join(work, "robotproj")
+    os.makedirs(os.path.join(d, "autonomous"), exist_ok=True)
+    open(os.path.join(d, "robot_c09.py"), "w").write(ROBOT_SRC)
+    open(os.path.join(d, "autonomous", "__init__.py"), "w").write("")
+    open(os.path.join(d, "autonomous", "mode_a.py"), "w").write(MODE_SRC)
+    env = dict(os.environ)
+    env["PYTHONPATH"] = REPO
+    try:
+        p = subprocess.run([sys.executable, "robot_c09.py"], cwd=d, env=env, stdout=subprocess.PIPE,
+                           stderr=subprocess.STDOUT, text=True, timeout=120)
+    except subprocess.TimeoutExpired:
+        return None, "timeout"
+    for line in p.stdout.splitlines():
+        if line.startswith("C09JSON"):
+            return json.loads(line[len("C09JSON"):]), p.stdout[-800:]
+    return None, p.stdout[-1500:]
+
+
+def robot_file(out):
+    obs = coq_list(["(%s, %s)" % (coq_string(k), coq_string(ts)) for k, ts in out["topics"]])
+    exp = coq_list(["(%s, %s, %s, %s)" % (o, s, coq_string(a), t) for o, s, a, t in ROBOT_EXPECT])
+    return (CASES_HEADER +
+            "Definition observed : list (string * string) := %s.\n"
+            "Definition expected : list (owner * option string * string * ntype) := %s.\n"
+            "Definition found (e : owner * option string * string * ntype) : bool :=\n"
+            "  let '(o, s, a, t) := e in\n"
+            "  existsb (fun kt => String.eqb (fst kt) (owner_key o s a) && String.eqb (snd kt) (type_string t)) observed.\n"
+            "Eval vm_compute in (bad_from found 0 expected ++ (if Nat.eqb (length observed) (length expected) then [] else [99%%nat]))%%list.\n"
+            % (obs, exp))
+
+
+# ---------------------------------------------------------------------------
+# run / search / replay
+# ---------------------------------------------------------------------------
+_TAGS = [0]
+
+
+def fresh_tag():
+    _TAGS[0] += 1
+    return "q%dz" % _TAGS[0]
+
+
+def retag(case, tag):
+    if not case.get("tag"):
+        return case
+    c = json.loads(json.dumps(case).replace(case["tag"], tag))
+    c["tag"] = tag
+    return c
+
+
+def grid_file(observed):
+    global _STRTAB
+    _STRTAB = StrTab()
+    try:
+        chunks = [coq_list([gobs_to_coq(g) for g in ch]) for ch in shards(observed, 2000)]
+        defs = _STRTAB.defs()
+    finally:
+        _STRTAB = None
+    body = "".join("Definition o%d : list gobs := %s.\n" % (k, c) for k, c in enumerate(chunks))
+    cat = " ++ ".join("o%d" % k for k in range(len(chunks)))
+    return (CASES_HEADER + defs + body +
+            "Definition observed : list gobs := (%s)%%list.\n"
+            "Eval vm_compute in (bad_grid 0 grid_decls observed).\n" % cat)
+
+
+def is_nontrivial(case, obs):
+    kinds = set(op[0] for op in case["ops"])
+    nset = sum(1 for op in case["ops"] if op[0] == "setup")
+    return nset >= 2 and {"pyw", "pyr", "ntw", "ntr"} <= kinds
+
+
+def load_corpus(ctx):
+    d = os.path.join(os.path.dirname(os.path.dirname(os.path.abspath(__file__))), "corpus", ctx.pid)
+    out = []
+    if os.path.isdir(d):
+        for f in sorted(os.listdir(d)):
+            if f.endswith(".json"):
+                try:
+                    obj = json.load(open(os.path.join(d, f)))
+                except ValueError:
+                    continue
+                if "case" in obj:
+                    out.append(obj["case"])
+    return out
+
+
+def violation_of_case(mt, case, shrink=True):
+    c = retag(case, fresh_tag())
+    v = oracle_case(c, exec_case(mt, c))
+    if v is None:
+        return None
+    if shrink:
+        c2, v2 = shrink_case(mt, c, fresh_tag)
+        if v2 is not None:
+            c, v = c2, v2
+    v["case"] = strip_case(c)
+    v["observations"] = exec_case(mt, retag(c, fresh_tag()))
+    return v
+
+
+def run(ctx):
+    ctx.assumptions.append(
+        "C09: ntcore modelled as a finite map key -> (type, value); type conflicts on an existing topic, values that "
+        "do not fit the topic type, unpublishing and the network are ntcore behaviour outside the model; "
+        "typing.get_type_hints / __orig_class__ unwrapping enters the model as the already unwrapped hint; "
+        "floats restricted to multiples of 1/64, strings to ASCII; pyntcore's StructArrayEntry.get() returns the "
+        "entry default for an EMPTY stored array (observed, not /repo code): empty struct arrays are only generated as defaults")
+    ctx.prove()
+    try:
+        mt = impl()
+    except Exception as e:
+        ctx.obligation("impl:magicbot.magic_tunable imports", False, repr(e))
+        return ctx.finish()
+    quick = ctx.tier != "thorough"
+
+    # ---- @feedback key / type (shared with C11) -----------------------
+    fcs, fobs, fbad = feedback_key_cases(ctx)
+
+    # ---- the type grid, exhaustive over Model.grid_decls ---------------
+    grid = grid_decls()
+    passes = [None] if quick else [0, 1, 2, 3]
+    gobs_all, gbad = [], []
+    for pi, form in enumerate(passes):
+        observed = []
+        for idx, (d, h) in enumerate(grid):
+            f = idx % 4 if form is None else form
+            observed.append(grid_observe(mt, idx + pi * len(grid), d, h, f, (idx // 4 + pi) % 2))
+            ctx.count("grid:%s" % observed[-1][0])
+        gobs_all.append(observed)
+    res = ctx.coq_files_parallel([("grid_%d" % pi, grid_file(o)) for pi, o in enumerate(gobs_all)])
+    for pi in range(len(passes)):
+        rc, out = res["grid_%d" % pi]
+        lists = parse_eval_lists(out) if rc == 0 else []
+        ok = rc == 0 and len(lists) == 1 and lists[0] == []
+        ctx.obligation("corr:grid_%d (decl_topic == class statement + type string read back, all %d grid points)"
+                       % (pi, len(grid)), ok, out[-1500:])
+        if rc == 0 and lists and lists[0]:
+            gbad += [(pi, i) for i in lists[0]]
+
+    # ---- MagicRobot binds the three owner kinds -------------------------
+    rob, rlog = run_robot(ctx.work)
+    ctx.obligation("robot:MagicRobot.robotInit runs and reports its tunable topics", rob is not None, rlog)
+    rob_ok = True
+    if rob is not None:
+        rc, out = ctx.coq_file("robot_0", robot_file(rob))
+        lists = parse_eval_lists(out) if rc == 0 else []
+        rob_ok = rc == 0 and len(lists) == 1 and lists[0] == [] and rob["left"] == 9 and rob["right"] == 3
+        ctx.obligation("corr:robot_0 (owner_key of components / autonomous mode / robot == topics of a real MagicRobot)",
+                       rob_ok, out[-1500:] + json.dumps(rob))
+
+    # ---- histories ---------------------------------------------------
+    n = 1000 if quick else 15000
+    cases = [retag(c, fresh_tag()) for c in load_corpus(ctx)]
+    ncorpus = len(cases)
+    while len(cases) < ncorpus + n:
+        cases.append(gen_case(ctx.rng, fresh_tag()))
+    pairs = []
+    distinct = set()
+    for c in cases:
+        o = exec_case(mt, c)
+        pairs.append((c, o))
+        for op in c["ops"]:
+            ctx.count("op=%s" % op[0])
+            if op[0] == "setup":
+                ctx.count("owner=%s" % (op[2] if op[2] in ("components", "autonomous") else
+                                        "robot" if op[3] == "robot" else "prefix-None-other" if op[2] is None else "other-prefix"))
+        for ds in c["classes"]:
+            for d in ds:
+                ctx.count("kind=%s%s" % (d["kind"][0], "[]" if d["kind"][1] else ""))
+                ctx.count("writeDefault=%s" % d["wd"])
+                ctx.count("subtable=%s" % ("none" if d["subtable"] is None else "empty" if d["subtable"] == "" else "yes"))
+        ctx.count("instances=%d" % len(c["insts"]))
+        if is_nontrivial(c, o):
+            distinct.add(json.dumps([c["classes"], c["ops"]]).replace(c["tag"], ""))
+    SH = 125
+    items = [("cases_%d" % k, cases_file(sh)) for k, sh in enumerate(shards(pairs, SH))]
+    res = ctx.coq_files_parallel(items)
+    hbad = []
+    for k, (name, _) in enumerate(items):
+        rc, out = res[name]
+        lists = parse_eval_lists(out) if rc == 0 else []
+        ok = rc == 0 and len(lists) == 1 and lists[0] == []
+        ctx.obligation("corr:%s (Model.run == implementation, every observation of every history)" % name, ok, out[-1500:])
+        if rc == 0 and lists and lists[0]:
+            hbad += [k * SH + i for i in lists[0]]
+        elif rc != 0:
+            hbad += list(range(k * SH, min(len(pairs), (k + 1) * SH)))
+    nobs = sum(len(o) for _, o in pairs)
+    ctx.coverage.update({
+        "evaluations": len(pairs) + len(grid) * len(passes) + len(fcs) + 1,
+        "traces_validated_against_impl": len(pairs),
+        "observations_compared": nobs,
+        "distinct_nontrivial": len(distinct),
+        "rule": "histories: 1-2 generated classes (type()) with 1-6 tunables over {bool,int,float,str,bytes,struct x2} x "
+                "{scalar,array}, hints in 4 syntactic forms, subtables, writeDefault True/False/absent, inherited and "
+                "private tunables; 1-3 instances under components/autonomous/robot/other prefixes, pre-published topics, "
+                "6-27 interleaved PyWrite/PyRead/NtWrite/NtRead/re-Setup ops, closing reads; non-trivial = >=2 setups and "
+                "all four of PyWrite, PyRead, NtWrite, NtRead occur; distinct up to the per-case name tag",
+        "exhaustive": False,
+        "exhaustive_parts": ["type grid: all %d points of Model.grid_decls (159 defaults x (no hint + 237 hints))%s"
+                             % (len(grid), "" if quick else " in each of the 4 hint forms"),
+                             "feedback: all %d method-name shapes x %d explicit-key choices; every annotation of the grid"
+                             % (len(FB_NAMES), len(FB_EXPLICIT))],
+        "corpus_cases": ncorpus,
+        "samples": [{"ops": c["ops"][:6], "observations": o[:6]} for c, o in pairs[ncorpus:ncorpus + 3]],
+    })
+
+    def search():
+        found = []
+        # 1. the disagreeing cases themselves
+        for i in hbad[:40]:
+            v = violation_of_case(mt, pairs[i][0])
+            if v:
+                return [v]
+        for pi, i in gbad[:200]:
+            d, h = grid[i]
+            g = gobs_all[pi][i]
+            r = oracle_grid(d, h, g)
+            if r:
+                return [{"kind": "grid", "fingerprint": r[0], "what": r[1], "default": d, "hint": h,
+                         "form": (i % 4 if passes[pi] is None else passes[pi]), "flavor": (i // 4 + pi) % 2, "observed": g}]
+        for i in fbad[:200]:
+            v = oracle_fcase(fcs[i], fobs[i])
+            if v:
+                return [v]
+        if rob is not None and not rob_ok:
+            got = {k: ts for k, ts in rob["topics"]}
+            if got != ROBOT_DOC or rob["left"] != 9 or rob["right"] != 3:
+                return [{"kind": "robot", "fingerprint": "c09-magicrobot-binding",
+                         "what": "a real MagicRobot publishes its tunables as %s (left.gain=%r right.gain=%r after "
+                                 "left.gain=9); documented: %s" % (json.dumps(got), rob["left"], rob["right"], json.dumps(ROBOT_DOC))}]
+        # 2. everything recorded in this run, then a bigger batch
+        for c, o in pairs:
+            if oracle_case(c, o) is not None:
+                v = violation_of_case(mt, c)
+                if v:
+                    return [v]
+        for pi, observed in enumerate(gobs_all):
+            for i, g in enumerate(observed):
+                r = oracle_grid(grid[i][0], grid[i][1], g)
+                if r:
+                    return [{"kind": "grid", "fingerprint": r[0], "what": r[1], "default": grid[i][0], "hint": grid[i][1],
+                             "form": (i % 4 if passes[pi] is None else passes[pi]), "flavor": (i // 4 + pi) % 2, "observed": g}]
+        for fc, o in zip(fcs, fobs):
+            v = oracle_fcase(fc, o)
+            if v:
+                return [v]
+        import time
+        t0 = time.time()
+        k = 0
+        while k < 10 * n and time.time() - t0 < 120:
+            k += 1
+            c = gen_case(ctx.rng, fresh_tag())
+            if oracle_case(c, exec_case(mt, c)) is not None:
+                v = violation_of_case(mt, c)
+                if v:
+                    return [v]
+        return found
+
+    return ctx.finish(search=search)
+
+
+def replay(ctx, obj):
+    mt = impl()
+    kind = obj.get("kind")
+    if kind == "input" and "case" in obj:
+        c = retag(obj["case"], fresh_tag())
+        o = exec_case(mt, c)
+        for op, ob in zip(c["ops"], o):
+            print("  %-90s -> %s" % (json.dumps(op)[:90], json.dumps(ob)[:120]))
+        v = oracle_case(c, o)
+        if v is not None:
+            print("fails: %s" % v["what"])
+            print("VIOLATION property=%s replay=(replayed)" % ctx.pid)
+            return 1
+        print("the history satisfies C09 on this tree")
+        return 0
+    if kind == "grid":
+        g = grid_observe(mt, 0, obj["default"], obj["hint"], obj.get("form", 0), obj.get("flavor", 0))
+        r = oracle_grid(obj["default"], obj["hint"], g)
+        print("tunable(%s) hint %s -> %s" % (json.dumps(obj["default"]), json.dumps(obj["hint"]), g))
+        if r:
+            print("fails: %s" % r[1])
+            print("VIOLATION property=%s replay=(replayed)" % ctx.pid)
+            return 1
+        return 0
+    if kind == "feedback":
+        fc = dict(obj["fcase"])
+        fc["cname"] = fc["cname"] + "r"
+        o = exec_fcase(mt, fc)
+        print("%s -> %s" % (json.dumps(fc), json.dumps(o)))
+        v = oracle_fcase(fc, o)
+        if v:
+            print("fails: %s" % v["what"])
+            print("VIOLATION property=%s replay=(replayed)" % ctx.pid)
+            return 1
+        return 0
+    if kind == "robot":
+        rob, log = run_robot(ctx.work)
+        print(json.dumps(rob))
+        if rob is None or {k: ts for k, ts in rob["topics"]} != ROBOT_DOC or rob["left"] != 9 or rob["right"] != 3:
+            print("VIOLATION property=%s replay=(replayed)" % ctx.pid)
+            return 1
+        return 0
+    print("replay names broken obligations only: %s" % [b["name"] if isinstance(b, dict) else b
+                                                        for b in obj.get("broken_obligations", [])])
+    return run(ctx)
